@@ -61,9 +61,14 @@ pub fn run(rep: &mut Report, tier: &str, seed: u64) {
         if rep.samples.len() < 3 && !exp.is_empty() {
             rep.sample(json!({"source": src, "errors": exp.len()}));
         }
-        // tree-sitter contract behind the has_error() shortcut
-        if tree.root_node().has_error() != !exp.is_empty() {
-            rep.fail("oracle-contract", "tree-sitter: root.has_error() differs from the existence of an ERROR/MISSING node", false, json!({"source": src}));
+        // tree-sitter contract behind the has_error() shortcut: an ERROR/MISSING node implies has_error() on the root.
+        // The converse does not hold (a zero-width MISSING token of a hidden rule, e.g. `(MISSING _newline)`, sets
+        // has_error() without being a node of the API tree): that is only counted.
+        if !exp.is_empty() && !tree.root_node().has_error() {
+            rep.fail("oracle-contract", "tree-sitter: an ERROR/MISSING node exists but root.has_error() is false", false, json!({"source": src}));
+        }
+        if exp.is_empty() && tree.root_node().has_error() {
+            rep.count("observation:has_error-without-a-visible-error-node");
         }
         let expected: Vec<Sexp> = exp.iter().map(|(m, n)| sexp::tagged(if *m { "missing" } else { "unexpected" }, vec![sexp::nat(info.index_of(n))])).collect();
         // implementation
